@@ -466,6 +466,7 @@ def install(rec):
         for name, cond in POSTS.items():
             if os.environ.get("VT_SELFTEST_NO_POST"):   # self-test only: relational driver on its own
                 break
+            _S.setdefault("orig", {})[name] = getattr(em, name)
             setattr(em, name, icontract.ensure(cond, error=_breach)(getattr(em, name)))
         _S["em"] = em
     return em
@@ -498,7 +499,9 @@ def call(F, fname, *a):
                 raise Abort()
         _S["n_" + fname] = _S.get("n_" + fname, 0) + 1   # per function: every one of them is sampled
         if _S["n_" + fname] % 4 == 1:
-            verdict, detail = history.reuse_check(getattr(_S["em"], fname), a)
+            # (the un-armed function: a post-condition that fires inside the history would end it as
+            # "not applicable" instead of letting the comparison with the fresh call decide)
+            verdict, detail = history.reuse_check(_S.get("orig", {}).get(fname) or getattr(_S["em"], fname), a)
             hk = "history.reuse_%s.%s" % (verdict.replace("/", ""), fname)
             _S.setdefault("hist", {})[hk] = _S.setdefault("hist", {}).get(hk, 0) + 1
             if verdict == "stale":
